@@ -21,6 +21,8 @@ class C04(Prop):
     LEAN_MODULES = ["Proofs.C04"]
     PARALLEL = 16
     THEOREMS = [
+        "PylifeVerif.C04.hcm_insert_nonreversal_interior",
+        "PylifeVerif.C04.hcm_append_nonreversal",
         "PylifeVerif.C04.periodicRainflow_insert",
         "PylifeVerif.C04.periodicRainflow_rotate",
         "PylifeVerif.C04.prf_rotate",
